@@ -72,34 +72,43 @@ theorem sumTo_upd (f : Nat → Nat) {i k : Nat} (v : Nat) (h : i < k) :
 
 /-! ### the deterministic stage function -/
 
-def bodyP (m : Nat) (data : List Nat) (i k v : Nat) : Option Nat :=
-  if i = 0 then data[k]? else if i = m then some v else some (xform (i + 1) v)
+/-- the stage functions of the pass-through stages: any deterministic (possibly stateful) stream transducers,
+given as functions of the history of received items and the current content -/
+class StageFn where
+  tr : Nat → List Item → Nat → Nat
 
-theorem body_eq (c : Chain) (i k v : Nat) : c.body i k v = bodyP c.m c.data i k v := rfl
+variable [StageFn]
 
-/-- what stage `i` outputs for its `k`-th input -/
-def outOf (m : Nat) (data : List Nat) (i k : Nat) : Item → Item
-  | .val v => match bodyP m data i k v with
+def bodyP (m : Nat) (data : List Nat) (i : Nat) (hist : List Item) (v : Nat) : Option Nat :=
+  if i = 0 then data[hist.length]? else if i = m then some v else some (StageFn.tr i hist v)
+
+theorem body_eq (c : Chain) (htr : c.tr = StageFn.tr) (i : Nat) (hist : List Item) (v : Nat) :
+    c.body i hist v = bodyP c.m c.data i hist v := by
+  unfold Chain.body bodyP; rw [htr]
+
+/-- what stage `i` outputs for an input received after the history `hist` -/
+def outOf (m : Nat) (data : List Nat) (i : Nat) (hist : List Item) : Item → Item
+  | .val v => match bodyP m data i hist v with
     | some v' => .val v'
     | none => .poison
   | .poison => .poison
 
-def outFrom (m : Nat) (data : List Nat) (i : Nat) : Nat → List Item → List Item
+/-- the output sequence for the inputs `l` received after the history `pre` -/
+def outFrom (m : Nat) (data : List Nat) (i : Nat) : List Item → List Item → List Item
   | _, [] => []
-  | k, x :: xs => outOf m data i k x :: outFrom m data i (k + 1) xs
+  | pre, x :: xs => outOf m data i pre x :: outFrom m data i (pre ++ [x]) xs
 
-theorem outFrom_append (m : Nat) (data : List Nat) (i k : Nat) (l : List Item) (x : Item) :
-    outFrom m data i k (l ++ [x]) = outFrom m data i k l ++ [outOf m data i (k + l.length) x] := by
-  induction l generalizing k with
+theorem outFrom_append (m : Nat) (data : List Nat) (i : Nat) (pre l : List Item) (x : Item) :
+    outFrom m data i pre (l ++ [x]) = outFrom m data i pre l ++ [outOf m data i (pre ++ l) x] := by
+  induction l generalizing pre with
   | nil => simp [outFrom]
   | cons a l ih =>
-    simp only [List.cons_append, outFrom, ih, List.length_cons]
-    have : k + 1 + l.length = k + (l.length + 1) := by omega
-    rw [this]
+    simp only [List.cons_append, outFrom, ih]
+    simp
 
-theorem outFrom_length (m : Nat) (data : List Nat) (i k : Nat) (l : List Item) :
-    (outFrom m data i k l).length = l.length := by
-  induction l generalizing k with
+theorem outFrom_length (m : Nat) (data : List Nat) (i : Nat) (pre l : List Item) :
+    (outFrom m data i pre l).length = l.length := by
+  induction l generalizing pre with
   | nil => rfl
   | cons a l ih => simp [outFrom, ih]
 
@@ -117,7 +126,7 @@ def producing (s : Stage) : Prop :=
   s.pc = .incProduce ∨ s.pc = .incPoison ∨ s.pc = .poisonCall ∨ s.pc = .dtor
 
 structure StageOK (m : Nat) (data : List Nat) (i : Nat) (s : Stage) : Prop where
-  r : s.out ++ pend s = outFrom m data i 0 s.inp
+  r : s.out ++ pend s = outFrom m data i [] s.inp
   kProd : s.pc = .incProduce → ∃ v, s.cur = .val v
   kPoi : s.pc = .incPoison → s.cur = .poison ∧ s.poisoned = true
   kDtor : s.pc = .dtor → s.cur = .poison
@@ -134,14 +143,14 @@ def afterConsume (m : Nat) (data : List Nat) (i : Nat) (s : Stage) (x : Item) : 
   | .init =>
     let s1 : Stage := { s with poisoned := false, cur := x, inp := s.inp ++ [x] }
     match x with
-    | .val v => match bodyP m data i s.inp.length v with
+    | .val v => match bodyP m data i s.inp v with
       | some v' => { s1 with cur := .val v', pc := .incProduce }
       | none => { s1 with pc := .poisonCall }
     | .poison => exitLoop s1
   | _ =>
     let s1 : Stage := { s with cur := x, inp := s.inp ++ [x] }
     match x with
-    | .val v => match bodyP m data i s.inp.length v with
+    | .val v => match bodyP m data i s.inp v with
       | some v' => { s1 with cur := .val v', pc := .incProduce }
       | none => { s1 with pc := .poisonCall }
     | .poison => { s1 with poisoned := true, pc := .incPoison }
@@ -160,13 +169,13 @@ theorem afterConsume_ok {m : Nat} {data : List Nat} {i : Nat} {s : Stage} (h : S
     intro hp; have := h.fin.mpr hp; rcases hc with e | e <;> simp [e] at this
   have hnop : Item.poison ∉ s.inp := by
     apply h.nop <;> rcases hc with e | e <;> simp [e]
-  have happ := outFrom_append m data i 0 s.inp x
-  rw [Nat.zero_add, ← hr] at happ
+  have happ := outFrom_append m data i [] s.inp x
+  rw [List.nil_append, ← hr] at happ
   rcases hc with e | e
   · -- init
     cases x with
     | val v =>
-      cases hb : bodyP m data i s.inp.length v with
+      cases hb : bodyP m data i s.inp v with
       | some v' =>
         simp only [afterConsume, e, hb]
         refine ⟨⟨by simpa [pend, outOf, hb] using happ.symm, by simp, by simp, by simp, by simpa using hnf,
@@ -184,7 +193,7 @@ theorem afterConsume_ok {m : Nat} {data : List Nat} {i : Nat} {s : Stage} (h : S
               by simp, by simp, by simp [pend], by simp, by simp⟩
   · cases x with
     | val v =>
-      cases hb : bodyP m data i s.inp.length v with
+      cases hb : bodyP m data i s.inp v with
       | some v' =>
         simp only [afterConsume, e, hb]
         refine ⟨⟨by simpa [pend, outOf, hb] using happ.symm, by simp, by simp, by simp, by simpa using hnf,
@@ -263,6 +272,7 @@ structure RInv (b m : Nat) (data : List Nat) (c : Chain) : Prop where
   hb : c.b = b
   hm : c.m = m
   hd : c.data = data
+  htr : c.tr = StageFn.tr
   bpos : 0 < b
   mpos : 1 ≤ m
   sok : ∀ i, i ≤ m → StageOK m data i (c.st i)
@@ -290,20 +300,21 @@ theorem RInv.unfinished (h : RInv b m data c) {i : Nat} (hi : i ≤ m) (hnf : (c
   | finished => rw [hm] at hmain; exact absurd (hmain.1 i hi) hnf
   | aborted => rw [hm] at hmain; exact hmain.elim
 
-theorem outOf_ne_poison {i : Nat} (hi : i ≠ 0) (k v : Nat) : outOf m data i k (.val v) ≠ .poison := by
+theorem outOf_ne_poison {i : Nat} (hi : i ≠ 0) (hist : List Item) (v : Nat) :
+    outOf m data i hist (.val v) ≠ .poison := by
   unfold outOf bodyP
   simp only [hi, if_false]
   by_cases e : i = m <;> simp [e]
 
-theorem outFrom_poison_mem {i : Nat} (hi : i ≠ 0) {k : Nat} {l : List Item}
-    (h : Item.poison ∈ outFrom m data i k l) : Item.poison ∈ l := by
-  induction l generalizing k with
+theorem outFrom_poison_mem {i : Nat} (hi : i ≠ 0) {pre : List Item} {l : List Item}
+    (h : Item.poison ∈ outFrom m data i pre l) : Item.poison ∈ l := by
+  induction l generalizing pre with
   | nil => simp [outFrom] at h
   | cons a l ih =>
     simp only [outFrom, List.mem_cons] at h
     rcases h with h | h
     · cases a with
-      | val v => exact absurd h.symm (outOf_ne_poison hi k v)
+      | val v => exact absurd h.symm (outOf_ne_poison hi pre v)
       | poison => simp
     · exact List.mem_cons_of_mem _ (ih h)
 
@@ -312,7 +323,7 @@ theorem RInv.fin_pred (h : RInv b m data c) {j : Nat} (hj : j + 1 ≤ m)
     (hf : (c.st (j + 1)).pc = .finished) : (c.st j).pc = .finished := by
   have ok := h.sok (j + 1) hj
   have hp : Item.poison ∈ (c.st (j + 1)).out := ok.fin.mp hf
-  have : Item.poison ∈ outFrom m data (j + 1) 0 (c.st (j + 1)).inp := by
+  have : Item.poison ∈ outFrom m data (j + 1) [] (c.st (j + 1)).inp := by
     rw [← ok.r]; exact List.mem_append_left _ hp
   have hin := outFrom_poison_mem (by omega) this
   have hq := h.q j (by omega)
@@ -384,18 +395,17 @@ theorem MainOK.upd_stage (h : MainOK b m c) {i : Nat} (hi : i ≤ m) (hnf : (c.s
   | finished => simp only [hm] at h; exact absurd (h.1 i hi) hnf
   | aborted => simp only [hm] at h
 
-theorem outFrom_append' (m : Nat) (data : List Nat) (i k : Nat) (l1 l2 : List Item) :
-    outFrom m data i k (l1 ++ l2) = outFrom m data i k l1 ++ outFrom m data i (k + l1.length) l2 := by
-  induction l1 generalizing k with
+theorem outFrom_append' (m : Nat) (data : List Nat) (i : Nat) (pre l1 l2 : List Item) :
+    outFrom m data i pre (l1 ++ l2) = outFrom m data i pre l1 ++ outFrom m data i (pre ++ l1) l2 := by
+  induction l1 generalizing pre with
   | nil => simp [outFrom]
   | cons a l ih =>
-    simp only [List.cons_append, outFrom, ih, List.length_cons]
-    have : k + 1 + l.length = k + (l.length + 1) := by omega
-    rw [this]
+    simp only [List.cons_append, outFrom, ih]
+    simp
 
 /-- the source turns its `(n+1)`-th block into poison, whatever it contains -/
 theorem outFrom_src_poison {l : List Item} (hl : data.length < l.length) :
-    Item.poison ∈ outFrom m data 0 0 l := by
+    Item.poison ∈ outFrom m data 0 [] l := by
   have hsplit : l = l.take data.length ++ l.drop data.length := (List.take_append_drop _ _).symm
   have hne : l.drop data.length ≠ [] := by
     intro e; have := congrArg List.length e; simp at this; omega
@@ -404,12 +414,11 @@ theorem outFrom_src_poison {l : List Item} (hl : data.length < l.length) :
   cases hd : l.drop data.length with
   | nil => exact absurd hd hne
   | cons x xs =>
-    have hk : 0 + (l.take data.length).length = data.length := by simp; omega
-    rw [hk]
+    have hk : ([] ++ l.take data.length).length = data.length := by simp; omega
     simp only [outFrom, List.mem_cons]
     left
     cases x with
-    | val v => simp [outOf, bodyP]
+    | val v => simp [outOf, bodyP, Nat.min_eq_left (Nat.le_of_lt hl)]
     | poison => rfl
 
 theorem RInv.stage_consume (h : RInv b m data c) {i : Nat} (hi : i ≤ m) (hc : consuming (c.st i))
@@ -457,7 +466,7 @@ theorem RInv.stage_consume (h : RInv b m data c) {i : Nat} (hi : i ≤ m) (hc : 
       have := okj.len
       omega
   obtain ⟨ok', hinp, hout, _, hns', hnf'⟩ := afterConsume_ok ok hc x hlen hsrc
-  refine { hb := h.hb, hm := h.hm, hd := h.hd, bpos := h.bpos, mpos := h.mpos, sok := ?_, q := ?_, q0 := ?_,
+  refine { hb := h.hb, hm := h.hm, hd := h.hd, htr := h.htr, bpos := h.bpos, mpos := h.mpos, sok := ?_, q := ?_, q0 := ?_,
            mainok := h.mainok.upd_stage hi hnf hns _ _ }
   · intro j hj
     by_cases e : j = i
@@ -506,7 +515,7 @@ theorem RInv.stage_produce (h : RInv b m data c) {i : Nat} (hi : i ≤ m) (hp : 
   rw [hx] at hout
   have hmp := h.mpos
   have hoq : c.outQ i = if i = m then 0 else i + 1 := by unfold Chain.outQ; rw [h.hm]
-  refine { hb := h.hb, hm := h.hm, hd := h.hd, bpos := h.bpos, mpos := h.mpos, sok := ?_, q := ?_, q0 := ?_,
+  refine { hb := h.hb, hm := h.hm, hd := h.hd, htr := h.htr, bpos := h.bpos, mpos := h.mpos, sok := ?_, q := ?_, q0 := ?_,
            mainok := h.mainok.upd_stage hi hnf hns _ _ }
   · intro j hj
     by_cases e : j = i
@@ -560,7 +569,7 @@ theorem RInv.stage_start (h : RInv b m data c) {i : Nat} (hi : i ≤ m) (hs : (c
     · have := ok.fin; simp [hs] at this; simpa using this
     · intro _ _ _; exact ok.nop (by simp [hs]) (by simp [hs]) (by simp [hs])
   have hmo := h.mainok.upd_stage hi hnf hns c.q { c.st i with pc := .init }
-  refine { hb := h.hb, hm := h.hm, hd := h.hd, bpos := h.bpos, mpos := h.mpos, sok := ?_, q := ?_, q0 := ?_,
+  refine { hb := h.hb, hm := h.hm, hd := h.hd, htr := h.htr, bpos := h.bpos, mpos := h.mpos, sok := ?_, q := ?_, q0 := ?_,
            mainok := hmo }
   · intro j hj
     by_cases e : j = i
@@ -601,7 +610,7 @@ theorem RInv.main_fill (h : RInv b m data c) {k : Nat} (hmn : c.main = .fill (k 
   rw [hfr, (hin m (Nat.le_refl _)).2, (hin 0 (by omega)).1, hdr] at hq0
   simp at hq0
   have hmp := h.mpos
-  refine { hb := h.hb, hm := h.hm, hd := h.hd, bpos := h.bpos, mpos := h.mpos, sok := h.sok, q := ?_, q0 := ?_,
+  refine { hb := h.hb, hm := h.hm, hd := h.hd, htr := h.htr, bpos := h.bpos, mpos := h.mpos, sok := h.sok, q := ?_, q0 := ?_,
            mainok := ?_ }
   · intro j hj
     have : j + 1 ≠ 0 := by omega
@@ -632,7 +641,7 @@ theorem RInv.main_fill0 (h : RInv b m data c) (hmn : c.main = .fill 0) :
   have hq0 := h.q0
   have hfr : fillRem c = 0 := by unfold fillRem; rw [hmn]
   rw [hfr] at hq0
-  exact { hb := h.hb, hm := h.hm, hd := h.hd, bpos := h.bpos, mpos := h.mpos, sok := h.sok, q := h.q,
+  exact { hb := h.hb, hm := h.hm, hd := h.hd, htr := h.htr, bpos := h.bpos, mpos := h.mpos, sok := h.sok, q := h.q,
           q0 := hq0, mainok := by unfold MainOK; exact ⟨by omega, by omega, fun j hj => by omega, hmain.2.2⟩ }
 
 theorem RInv.main_join (h : RInv b m data c) {i : Nat} (hmn : c.main = .join i)
@@ -647,7 +656,7 @@ theorem RInv.main_join (h : RInv b m data c) {i : Nat} (hmn : c.main = .join i)
   rw [hfr] at hq0
   have hfr' : fillRem { c with main := if i = m + 1 then .drain 0 else .join (i + 1) } = 0 := by
     unfold fillRem; by_cases e : i = m + 1 <;> simp [e]
-  refine { hb := h.hb, hm := h.hm, hd := h.hd, bpos := h.bpos, mpos := h.mpos, sok := h.sok, q := h.q,
+  refine { hb := h.hb, hm := h.hm, hd := h.hd, htr := h.htr, bpos := h.bpos, mpos := h.mpos, sok := h.sok, q := h.q,
            q0 := by rw [hfr']; exact hq0, mainok := ?_ }
   unfold MainOK
   by_cases e : i = m + 1
@@ -682,7 +691,7 @@ theorem RInv.main_drain (h : RInv b m data c) {k : Nat} (hmn : c.main = .drain k
   have hfr' : ∀ mn, (mn = MPC.finished ∨ mn = MPC.drain (k + 1)) →
       fillRem { c with q := upd c.q 0 rest, drained := c.drained ++ [x], main := mn } = 0 := by
     intro mn hmn'; unfold fillRem; rcases hmn' with e | e <;> simp [e]
-  refine { hb := h.hb, hm := h.hm, hd := h.hd, bpos := h.bpos, mpos := h.mpos, sok := h.sok, q := ?_, q0 := ?_,
+  refine { hb := h.hb, hm := h.hm, hd := h.hd, htr := h.htr, bpos := h.bpos, mpos := h.mpos, sok := h.sok, q := ?_, q0 := ?_,
            mainok := ?_ }
   · intro j hj
     have : j + 1 ≠ 0 := by omega
@@ -699,23 +708,24 @@ theorem RInv.main_drain (h : RInv b m data c) {k : Nat} (hmn : c.main = .drain k
 
 /-! ### every step preserves the invariant -/
 
-theorem loopTest_eq_init (hm : c.m = m) (hd : c.data = data) {i : Nat} {s : Stage} (hpc : s.pc = .init)
-    (x : Item) :
-    c.loopTest i s.inp.length { s with poisoned := false, cur := x, inp := s.inp ++ [x] }
+theorem loopTest_eq_init (hm : c.m = m) (hd : c.data = data) (htr : c.tr = StageFn.tr) {i : Nat} {s : Stage}
+    (hpc : s.pc = .init) (x : Item) :
+    c.loopTest i s.inp { s with poisoned := false, cur := x, inp := s.inp ++ [x] }
       = afterConsume m data i s x := by
   cases x with
   | poison => simp [Chain.loopTest, afterConsume, hpc]
   | val v =>
-    simp only [Chain.loopTest, afterConsume, hpc, body_eq, hm, hd]
-    cases bodyP m data i s.inp.length v <;> rfl
+    simp only [Chain.loopTest, afterConsume, hpc, body_eq c htr, hm, hd]
+    cases bodyP m data i s.inp v <;> rfl
 
-theorem loopTest_eq_inc (hm : c.m = m) (hd : c.data = data) {i : Nat} {s : Stage} (hpc : s.pc = .incConsume)
-    (v : Nat) :
-    c.loopTest i s.inp.length { s with cur := .val v, inp := s.inp ++ [.val v] }
+theorem loopTest_eq_inc (hm : c.m = m) (hd : c.data = data) (htr : c.tr = StageFn.tr) {i : Nat} {s : Stage}
+    (hpc : s.pc = .incConsume) (v : Nat) :
+    c.loopTest i s.inp { s with cur := .val v, inp := s.inp ++ [.val v] }
       = afterConsume m data i s (.val v) := by
-  simp only [Chain.loopTest, afterConsume, hpc, body_eq, hm, hd]
-  cases bodyP m data i s.inp.length v <;> rfl
+  simp only [Chain.loopTest, afterConsume, hpc, body_eq c htr, hm, hd]
+  cases bodyP m data i s.inp v <;> rfl
 
+omit [StageFn] in
 theorem fifoPush_some {α : Type} {cap : Nat} {buf buf' : List α} {x : α} (h : fifoPush cap buf x = some buf') :
     buf.length < cap ∧ buf' = buf ++ [x] := by
   unfold fifoPush at h
@@ -723,6 +733,7 @@ theorem fifoPush_some {α : Type} {cap : Nat} {buf buf' : List α} {x : α} (h :
   · rw [if_pos e] at h; cases h; exact ⟨e, rfl⟩
   · rw [if_neg e] at h; cases h
 
+omit [StageFn] in
 theorem fifoPop_some {α : Type} {buf rest : List α} {x : α} (h : fifoPop buf = some (x, rest)) :
     buf = x :: rest := by
   cases buf with
@@ -757,7 +768,7 @@ theorem rinv_stageStep (h : RInv b m data c) {i : Nat} (hi : i ≤ m) {c' : Chai
     | some pr =>
       obtain ⟨x, rest⟩ := pr
       simp only [hq] at hs; cases hs
-      have e := loopTest_eq_init (c := c) (i := i) h.hm h.hd hpc x
+      have e := loopTest_eq_init (c := c) (i := i) h.hm h.hd h.htr hpc x
       simp only [hpc] at e
       rw [e]
       exact h.stage_consume hi (Or.inl hpc) (fifoPop_some hq)
@@ -772,7 +783,7 @@ theorem rinv_stageStep (h : RInv b m data c) {i : Nat} (hi : i ≤ m) {c' : Chai
       cases x with
       | poison => simpa [afterConsume, hpc] using this
       | val v =>
-        have e := loopTest_eq_inc (c := c) (i := i) h.hm h.hd hpc v
+        have e := loopTest_eq_inc (c := c) (i := i) h.hm h.hd h.htr hpc v
         simp only [hpc] at e
         simp only []
         rw [e]; exact this
@@ -862,19 +873,21 @@ theorem rinv_step (h : RInv b m data c) {tid : Nat} {c' : Chain} (hs : c.step ti
     · rw [if_neg hi] at hs; cases hs
 
 theorem rinv_init (b m : Nat) (data : List Nat) (hb : 0 < b) (hm : 1 ≤ m) :
-    RInv b m data (Chain.init b m data) := by
-  refine { hb := rfl, hm := rfl, hd := rfl, bpos := hb, mpos := hm, sok := ?_, q := ?_, q0 := ?_, mainok := ?_ }
+    RInv b m data (Chain.initT b m data StageFn.tr) := by
+  refine { hb := rfl, hm := rfl, hd := rfl, htr := rfl, bpos := hb, mpos := hm, sok := ?_, q := ?_, q0 := ?_,
+           mainok := ?_ }
   · intro i _
-    refine ⟨by simp [Chain.init, pend, outFrom], by simp [Chain.init], by simp [Chain.init], by simp [Chain.init],
-            by simp [Chain.init], by simp [Chain.init], by simp [Chain.init], by simp [Chain.init],
-            by simp [Chain.init], by simp [Chain.init]⟩
-  · intro i _; simp [Chain.init]
-  · simp [Chain.init, fillRem]
+    refine ⟨by simp [Chain.initT, Chain.init, pend, outFrom], by simp [Chain.initT, Chain.init],
+            by simp [Chain.initT, Chain.init], by simp [Chain.initT, Chain.init],
+            by simp [Chain.initT, Chain.init], by simp [Chain.initT, Chain.init], by simp [Chain.initT, Chain.init],
+            by simp [Chain.initT, Chain.init], by simp [Chain.initT, Chain.init], by simp [Chain.initT, Chain.init]⟩
+  · intro i _; simp [Chain.initT, Chain.init]
+  · simp [Chain.initT, Chain.init, fillRem]
   · unfold MainOK
-    simp [Chain.init]
+    simp [Chain.initT, Chain.init]
 
 theorem rinv_reach {b m : Nat} {data : List Nat} {c : Chain} (hb : 0 < b) (hm : 1 ≤ m)
-    (hr : Chain.Reach (Chain.init b m data) c) : RInv b m data c := by
+    (hr : Chain.Reach (Chain.initT b m data StageFn.tr) c) : RInv b m data c := by
   induction hr with
   | init => exact rinv_init b m data hb hm
   | step _ hs ih => exact rinv_step ih hs
